@@ -15,11 +15,35 @@ class AnalysisError(Exception):
 
 # --------------------------------------------------------------------------------------- ast helpers
 
+_SINGLETONS = (ast.expr_context, ast.operator, ast.unaryop, ast.boolop, ast.cmpop)
+
+
 def set_parents(tree: ast.AST) -> None:
     for node in ast.walk(tree):
         for child in ast.iter_child_nodes(node):
-            child._parent = node  # type: ignore[attr-defined]
+            # Load()/Store()/Add()/... are process-wide singletons shared by every parsed tree: they have no parent
+            if not isinstance(child, _SINGLETONS):
+                child._parent = node  # type: ignore[attr-defined]
     tree._parent = None  # type: ignore[attr-defined]
+
+
+def clone(node):
+    """structural copy of a syntax (sub)tree: fields and positions only - never follows the _parent/_info links that
+    copy.deepcopy would follow out of the subtree into the whole repository model"""
+    if isinstance(node, list):
+        return [clone(x) for x in node]
+    if not isinstance(node, ast.AST):
+        return node
+    if isinstance(node, _SINGLETONS):
+        return node
+    new = type(node)()
+    for f in node._fields:
+        if hasattr(node, f):
+            setattr(new, f, clone(getattr(node, f)))
+    for a in node._attributes:
+        if hasattr(node, a):
+            setattr(new, a, getattr(node, a))
+    return new
 
 
 def parent(node: ast.AST):
@@ -290,6 +314,9 @@ class Module:
     constants: dict[str, ast.expr] = field(default_factory=dict)
 
 
+_TREE_CACHE: dict = {}
+
+
 class Repo:
     def __init__(self, root: str = "/repo", overrides: dict[str, str] | None = None,
                  include_tests: bool = False, extra_dirs: tuple[str, ...] = ()) -> None:
@@ -337,14 +364,24 @@ class Repo:
             else:
                 with open(path, encoding="utf-8") as fh:
                     src = fh.read()
-            try:
-                tree = ast.parse(src, filename=path)
-            except SyntaxError as e:
-                raise AnalysisError(f"parse error in {rel}: {e}") from e
-            if self.recover_names:
-                from .localnames import recover
-                self.renamed_locals += recover(tree, src, rel)
-            set_parents(tree)
+            key = (rel, self.recover_names, hash(src))
+            cached = _TREE_CACHE.get(key)
+            if cached is not None and cached[0] == src:
+                tree = cached[1]
+                self.renamed_locals += cached[2]
+            else:
+                try:
+                    tree = ast.parse(src, filename=path)
+                except SyntaxError as e:
+                    raise AnalysisError(f"parse error in {rel}: {e}") from e
+                n = 0
+                if self.recover_names:
+                    from .localnames import recover
+                    n = recover(tree, src, rel)
+                    self.renamed_locals += n
+                set_parents(tree)
+                # rules never mutate syntax trees, so a parsed + normalised tree is shared by every Repo of this process
+                _TREE_CACHE[key] = (src, tree, n)
             modname = rel[:-3].replace(os.sep, ".")
             if modname.endswith(".__init__"):
                 modname = modname[: -len(".__init__")]
